@@ -304,7 +304,7 @@ func main() {
 		os.Exit(0)
 	}
 	c.Rule = "one case = one interleaving of {packet arrives, uplink packs/sends, downlink receives, NAT timer fires, Stop} on the real relay for a scenario {server protocol, batch mode, kind: idle eviction + restart, packet racing with the timeout, Stop with packets in flight, Stop during session initialisation, router rejection, failing sends (EPERM as environment deviation), two sessions}; distinct = distinct observation record"
-	c.Assumptions = []string{"real loopback sockets with scheduler-mediated readiness; NAT timeouts and Stop deadlines on the virtual clock", "promptness oracle: after Stop is called no timer later than 1 s may fire, so a Stop that depends on a NAT timeout shows as a deadlock", "send failures are injected only on sockets the relay created"}
+	c.Assumptions = []string{"real loopback sockets with scheduler-mediated readiness; NAT timeouts and Stop deadlines on the virtual clock", "promptness oracle: after Stop is called no timer later than 1 s may fire, so a Stop that depends on a NAT timeout shows as a deadlock", "send failures are injected only on sockets the relay created", "outgoing client: direct only; a SOCKS5 outgoing UDP client (whose session owns a TCP control connection that only Close releases) is outside the alphabet"}
 	c.SigOf = func(_, param, msg string) string {
 		sp := parse(param)
 		if i := strings.Index(msg, ": T"); i > 0 {
